@@ -14,6 +14,7 @@ import (
 	"sort"
 	"strings"
 	"sync"
+	"sync/atomic"
 	"time"
 
 	"github.com/libp2p/go-libp2p/core/peer"
@@ -220,6 +221,7 @@ func stressRun(rep *vh.Report, sp *StressPlan, tw *traceWriter, seed int64, run 
 	}
 
 	var wg sync.WaitGroup
+	var hung atomic.Bool
 	stopClock := make(chan struct{})
 	clockDone := make(chan struct{})
 	go func() { // the clock
@@ -314,17 +316,15 @@ func stressRun(rep *vh.Report, sp *StressPlan, tw *traceWriter, seed int64, run 
 				select {
 				case <-done:
 				case <-time.After(watchdog):
-					return // reported by the outer watchdog
+					hung.Store(true)
+					return
 				}
 				rep.Count("stress_ops", 1)
 			}
 		}()
 	}
-	finished := make(chan struct{})
-	go func() { wg.Wait(); close(finished) }()
-	select {
-	case <-finished:
-	case <-time.After(watchdog + 5*time.Second):
+	wg.Wait() // every worker returns: each call is under a watchdog
+	if hung.Load() {
 		// some call did not return: is it a lock cycle?
 		d1 := dumpGoroutines()
 		time.Sleep(time.Second)
@@ -332,8 +332,10 @@ func stressRun(rep *vh.Report, sp *StressPlan, tw *traceWriter, seed int64, run 
 		var stuck []string
 		for id, g1 := range d1 {
 			if g2, ok := d2[id]; ok && strings.Contains(g1.Raw, "/shrex/peers.(*") &&
-				(strings.HasPrefix(g2.State, "sync.Mutex.Lock") || strings.HasPrefix(g2.State, "sync.RWMutex")) && g1.State == g2.State {
-				stuck = append(stuck, fmt.Sprintf("goroutine %d [%s] %s", id, g2.State, firstPeersFrame(g2)))
+				(strings.HasPrefix(g2.State, "sync.Mutex.Lock") || strings.HasPrefix(g2.State, "sync.RWMutex")) && strings.SplitN(g1.State, ",", 2)[0] == strings.SplitN(g2.State, ",", 2)[0] {
+				if fr := firstPeersFrame(g2); fr != "" {
+					stuck = append(stuck, fmt.Sprintf("goroutine %d [%s] %s", id, g2.State, fr))
+				}
 			}
 		}
 		sort.Strings(stuck)
@@ -348,7 +350,12 @@ func stressRun(rep *vh.Report, sp *StressPlan, tw *traceWriter, seed int64, run 
 		return false
 	}
 	close(stopClock)
-	<-clockDone
+	select {
+	case <-clockDone:
+	case <-time.After(watchdog):
+		rep.Inconclusivef("stress run %d: the clock goroutine did not finish", run)
+		return false
+	}
 	// let the timer goroutines that are still running finish (they hold no gate in free mode)
 	deadline := time.Now().Add(watchdog)
 	for len(s.liveTimers()) > 0 && time.Now().Before(deadline) {
